@@ -87,13 +87,16 @@ def extract_unit(root, unit, workdir, canary=None, flags_off=False):
     return out, mapf
 
 
-def run_verus(path, rlimit, seed, threads=8, timeout=900, nonlinear=False):
+def run_verus(path, rlimit, seed, threads=8, timeout=900, nonlinear=False, only_function=None):
     cmd = [VERUS, os.path.basename(path), "--output-json", "--time-expanded", "--rlimit", str(rlimit),
            "--smt-option", "smt.random_seed=%d" % seed, "--error-format=json", "--num-threads", str(threads),
            "--multiple-errors", "4", "--no-report-long-running"]
     if nonlinear:
         # exact-arithmetic differential only: let Z3 reason about products of real-valued terms (associativity, distribution)
         cmd += ["--smt-option", "smt.arith.nl=true"]
+    if only_function:
+        # differential re-verification: only the function whose obligation failed is looked at again
+        cmd += ["--verify-only-module", "unit", "--verify-function", only_function]
     rc, so, se, dt = sh(cmd, cwd=os.path.dirname(path), timeout=timeout)
     return rc, so, se, dt, " ".join(cmd)
 
@@ -145,7 +148,8 @@ def parse_verus(path, mapf, rc, so, se):
         res["status"] = "undecided"
         res["reason"] = "Verus VIR error (unsupported construct): " + " | ".join(d.get("message", "") for d in errors)[:1500]
         return res
-    if not errors and vr.get("success"):
+    if not errors and (vr.get("success") or (vr.get("errors", 0) == 0 and vr.get("verified", 0) > 0)):
+        # (a partial run with --verify-function reports success=false although nothing failed)
         return res
     # classify errors
     m = json.load(open(mapf))
@@ -261,7 +265,7 @@ def apply_extra_axioms(root, path, preamble_file, groups, suffix):
     return out, extra.count("\n") + 1
 
 
-def verify_unit(root, unit, workdir, rlimit, seed, canary=None, threads=8, flags_off=False, lemma_canary=None, f64_iso=False, exact=False):
+def verify_unit(root, unit, workdir, rlimit, seed, canary=None, threads=8, flags_off=False, lemma_canary=None, f64_iso=False, exact=False, only_function=None):
     path, mapf = extract_unit(root, unit, workdir, canary=canary, flags_off=flags_off)
     if f64_iso or exact:
         if f64_iso:
@@ -279,8 +283,10 @@ def verify_unit(root, unit, workdir, rlimit, seed, canary=None, threads=8, flags
     if lemma_canary:
         path = insert_lemma_canary(path, lemma_canary)
         canary = "lemma:" + lemma_canary
-    rc, so, se, dt, cmd = run_verus(path, rlimit, seed, threads=threads, nonlinear=exact)
+    rc, so, se, dt, cmd = run_verus(path, rlimit, seed, threads=threads, nonlinear=exact, only_function=only_function, timeout=(300 if (exact or f64_iso) else 900))
     r = parse_verus(path, mapf, rc, so, se)
+    if r["status"] == "resource" and (exact or f64_iso):
+        r["status"] = "undecided"
     if r["status"] == "resource":
         # a budget effect is never a violation: retry once with 5x the budget and another seed
         rc, so, se, dt2, cmd = run_verus(path, rlimit * 5, seed + 1, threads=threads)
@@ -288,14 +294,14 @@ def verify_unit(root, unit, workdir, rlimit, seed, canary=None, threads=8, flags
         r = parse_verus(path, mapf, rc, so, se)
         if r["status"] == "resource":
             r["status"] = "undecided"
-    if r["status"] == "fail" and canary is None:
+    if r["status"] == "fail" and canary is None and not exact and not f64_iso:
         # a failed obligation counts only if it fails under every solver seed tried: an obligation that is discharged under some
         # seed has a proof (unstable, reported as such), and must never raise an alarm
         key = lambda f: (f.get("function"), f.get("message"), f.get("unit_text"))
         stable = {key(f): f for f in r["failures"]}
         flaky = []
         for extra_seed in (seed + 17, seed + 31):
-            rc2, so2, se2, dt2, _ = run_verus(path, rlimit * 3, extra_seed, threads=threads, nonlinear=exact)
+            rc2, so2, se2, dt2, _ = run_verus(path, rlimit * 3, extra_seed, threads=threads, nonlinear=exact, only_function=only_function)
             dt += dt2
             r2 = parse_verus(path, mapf, rc2, so2, se2)
             if r2["status"] == "ok":
@@ -743,16 +749,21 @@ def check_property(root, pid, tier, seed):
             if not v.get("kani") and v.get("unit") in exact_units:
                 by_unit.setdefault(v["unit"], []).append(v)
         for uname, vs in by_unit.items():
-            try:
-                rx = verify_unit(root, uname, os.path.join(work, "exact"), rlimit * 3, seed, exact=True)
-            except Undecided:
-                continue
-            if rx["status"] == "undecided":
-                continue
             key = lambda f: (f.get("function"), f.get("message"), f.get("unit_text"))
-            still = set(key(f) for f in rx["failures"]) if rx["status"] == "fail" else set()
+            still = set()
+            looked = set()
+            for fn in sorted(set(v.get("function") for v in vs if v.get("function"))):
+                try:
+                    rx = verify_unit(root, uname, os.path.join(work, "exact"), rlimit, seed, exact=True, only_function=fn)
+                except Undecided:
+                    continue
+                if rx["status"] == "undecided":
+                    continue
+                looked.add(fn)
+                if rx["status"] == "fail":
+                    still |= set(key(f) for f in rx["failures"])
             for v in vs:
-                if key(v) not in still:
+                if v.get("function") in looked and key(v) not in still:
                     violations.remove(v)
                     total_err -= 1
                     total_ver += 1
